@@ -904,6 +904,15 @@ func (u *Unit) havocLoop(st *State, fr *Frame, li *loopInfo) {
 		// unleaked locals keep their values
 		debugf("loop %s of %s havocs everything: %v", li.label, fr.Fn.Name(), eff.why)
 		u.havocAll(st, fr)
+		for _, w := range eff.why {
+			if strings.HasPrefix(w, "uncontracted in-repo callee ") {
+				// what the loop changes is unknown only because a function of the module it
+				// calls has no contract: everything is forgotten at its head, and what fails
+				// behind it may fail for that reason alone
+				st.weaken("loop " + li.label + " of " + fr.Fn.String() + " calls " + strings.TrimPrefix(w, "uncontracted in-repo callee ") + ", which has no contract: everything is forgotten at the loop head")
+				break
+			}
+		}
 	} else {
 		u.framedWrites(st, fr, li, eff)
 		if eff.external {
